@@ -28,7 +28,8 @@ Bad(cs) ==
          {<<"SPEC-NotTransitive", q[1], q[2], "spec">> : q \in {r \in D : \E k \in Frag : <<r[2], k>> \in D /\ <<r[1], k>> \notin D}})
    \cup {<<"NoException", cs.errs[e][1], cs.errs[e][2], "plain">> : e \in DOMAIN cs.errs}
 
+\* one representative per (clause, shape) class, plus the total count
 Report == LET b == Bad(Cases[c]) IN
           b = {} \/ PrintT(ToJson([case |-> Cases[c].id, n |-> Cardinality(b),
-                                   bad |-> {x \in b : \A y \in b : (y[1] = x[1] /\ y[4] = x[4]) => (y[2] > x[2] \/ (y[2] = x[2] /\ y[3] >= x[3]))}]))
+                                   bad |-> {CHOOSE x \in {y \in b : y[1] = cs[1] /\ y[4] = cs[2]} : TRUE : cs \in {<<y[1], y[4]>> : y \in b}}]))
 =============================================================================
